@@ -96,7 +96,7 @@ CLASS = {("p", "grid"): "NBListGrid", ("p", "simple"): "NBList",
 def conf_class(r):
     box = "ortho" if r["box"][1] == 0 and r["box"][3] == 0 and r["box"][4] == 0 else "triclinic"
     mn = min(r["N"])
-    return "%s:minN=%s" % (box, "3+" if mn >= 3 else str(mn))
+    return "minN=%s" % ("3+" if mn >= 3 else str(mn))
 
 
 # ----------------------------------------------------------------------------------------------
